@@ -83,7 +83,7 @@ theorem collStep_shape (st : CollSt) (hinv : Inv st) (doc : Y) :
     · simp only [ha, if_true]
       by_cases hc : ((dm.map (·.1)).any fun x => keyIs x (S "correlation")) = true
       · simp only [hc, if_true]
-        exact ⟨fun b => corrFromDict b (.map dm), { st with names := st.names ++ [nameOf (.map dm)] }, fun b => rfl,
+        exact ⟨fun b => corrFromDict b (.map dm), { st with names := st.names ++ [nameOf (.map dm)], objs := st.objs ++ [corrObj (.map dm)] }, fun b => rfl,
           ⟨hinv.prev, hinv.glob, by
             intro n hn; simp only [List.mem_append, List.mem_singleton] at hn
             rcases hn with hn | rfl
@@ -101,7 +101,7 @@ theorem collStep_shape (st : CollSt) (hinv : Inv st) (doc : Y) :
           obtain ⟨merged, hm, hmm⟩ := deepUpdate_map g (.map dm) rfl
           simp only [pyItems, pure_eq, ok_bind, hm]
           exact ⟨fun b => ruleFromDict b merged,
-            { st with prev := merged, prevIsGlob := false, nRules := st.nRules + 1, names := st.names ++ [nameOf merged] },
+            { st with prev := merged, prevIsGlob := false, nRules := st.nRules + 1, names := st.names ++ [nameOf merged], objs := st.objs ++ [ruleObj merged] },
             by intro b; simp [hgl],
             ⟨hmm, by simp [hgl, Y.isMap], by
               intro n hn; simp only [List.mem_append, List.mem_singleton] at hn
@@ -126,7 +126,7 @@ theorem collStep_shape (st : CollSt) (hinv : Inv st) (doc : Y) :
             obtain ⟨p, hp, hpm⟩ := deepUpdate_map dm st.prev hinv.prev
             simp only [hp, ok_bind]
             exact ⟨fun b => ruleFromDict b p,
-              { st with prev := p, glob := if st.prevIsGlob then p else st.glob, nRules := st.nRules + 1, names := st.names ++ [nameOf p] },
+              { st with prev := p, glob := if st.prevIsGlob then p else st.glob, nRules := st.nRules + 1, names := st.names ++ [nameOf p], objs := st.objs ++ [ruleObj p] },
               fun b => rfl,
               ⟨hpm, by simp only []; split; exact hpm; exact hinv.glob, by
                 intro n hn; simp only [List.mem_append, List.mem_singleton] at hn
@@ -243,5 +243,48 @@ theorem strictOf_facts (errs : List SigmaCls) :
   | nil => simp [strictOf, Except.map]
   | cons c rest => simp [strictOf, Except.map]
 
+
+end SigmaVerif.Load
+
+namespace SigmaVerif.Load
+
+/-! ## reference resolution -/
+theorem collGetItem_sig (objs : List Obj) (ref : Str) : SigOnly (· = .ruleNotFoundError) (collGetItem objs ref) := by
+  simp only [collGetItem, pyUUID, pyKeyLookup]
+  by_cases h1 : uuidOk ref = true
+  · simp only [h1, if_true, pure_eq, ok_bind]
+    by_cases h2 : ((objs.map (·.idKey)).any (keyEq (.str (uuidKey ref)))) = true <;> simp [h2]
+  · simp only [h1]
+    by_cases h2 : ((objs.map (·.name)).any (keyEq (.str ref))) = true <;> simp [h2]
+
+/-- resolution returns or raises `SigmaRuleNotFoundError` -/
+theorem collResolve_sig (objs : List Obj) : SigOnly (· = .ruleNotFoundError) (collResolve objs) := by
+  unfold collResolve
+  exact forEach_sigOnly (fun o => forEach_sigOnly (collGetItem_sig objs) o.refs) objs
+
+theorem collFromDictsRef_noPy (b : Bool) (ds : List Y) : NoPy (collFromDictsRef b ds) := by
+  unfold collFromDictsRef
+  obtain ⟨h1, h2⟩ := collLoop_noPy b ds {} inv_init
+  refine OnlyPy.bind h1 (fun st hst => ?_)
+  rw [collPostInit_ok st (h2 st hst)]
+  simp only [ok_bind]
+  have hr := collResolve_sig st.objs
+  cases b
+  · exact hr.1.bind (fun _ _ => by simp)
+  · simp only [if_true]
+    exact OnlyPy.catchSigma (hr.1.bind (fun _ _ => by simp)) (fun c => by simp)
+
+/-- the result of collecting mode after the loop: the collected errors, plus the resolution error -/
+theorem collRef_collect_tail (st : CollSt) :
+    ∃ more, catchSigma none (do collResolve st.objs; pure st.errs) (fun c => pure (st.errs ++ [c])) = .ok (st.errs ++ more) ∧
+      (collResolve st.objs = .ok () → more = []) ∧
+      (∀ c, collResolve st.objs = .error (.sigma c) → more = [c]) := by
+  have hr := collResolve_sig st.objs
+  cases h : collResolve st.objs with
+  | ok u => exact ⟨[], by simp, fun _ => rfl, fun c hc => (by cases hc)⟩
+  | error e =>
+    cases e with
+    | sigma c => exact ⟨[c], by simp, fun hc => (by cases hc), fun c' hc => (by cases hc; rfl)⟩
+    | py c => exact absurd (hr.1 c h) (by simp)
 
 end SigmaVerif.Load
